@@ -146,3 +146,28 @@ def is_empty_list(a):
 def is_integral(a):
     """The (finite) number has an integer value."""
     return _frac(a).denominator == 1
+
+
+@prim(lambda ex, a: VStr(a.pycls.__name__))
+def class_name(a):
+    return type(a).__name__
+
+
+def _unchanged(ex, a, b):
+    if a is b:
+        return VBool(True)
+    if a.pycls is not b.pycls:
+        return VBool(False)
+    if isinstance(a, VFloat) and isinstance(b, VFloat):
+        return VBool(z3.And(a.nan == b.nan, a.inf == b.inf, z3.Or(a.nan, a.inf != 0, a.val == b.val), a.neg == b.neg))
+    return VBool(ex.eq(a, b))
+
+
+@prim(_unchanged)
+def unchanged(a, b):
+    """same class and same value (NaN equals NaN, the sign of zero counts)"""
+    if type(a) is not type(b):
+        return False
+    if isinstance(a, float):
+        return (math.isnan(a) and math.isnan(b)) or (a == b and math.copysign(1, a) == math.copysign(1, b))
+    return a == b
